@@ -78,8 +78,11 @@ func (f *Defvar) Call(s *slip.Scope, args slip.List, depth int) (result slip.Obj
 			}
 		}
 	}
-	vv := pkg.Set(vname, iv, private)
-	vv.Doc = string(doc)
+	// Another routine may have defined the variable while the initial value
+	// was evaluated, the first definition stays.
+	if vv, set := pkg.SetIfUnbound(vname, iv, private); set {
+		vv.Doc = string(doc)
+	}
 
 	return slip.Symbol(vname)
 }
